@@ -159,7 +159,8 @@ def _val(draw, var, cls, depth, model, names, miss):
 @st.composite
 def _case(draw, maxdepth):
     model = {k: draw(_sig()) for k in ["Evt.val", "Evt.jets", "Jet.val", "Jet.trks", "Jet.obj", "Trk.val", "fn"]}
-    names = draw(st.sampled_from([["e", "j", "t"], ["e"], ["x", "e"], ["e", "j", "t", "u", "v"]]))
+    # lambda parameters may be spelled like a registered function or a typed builtin (a parameter is a parameter)
+    names = draw(st.sampled_from([["e", "j", "t"], ["e"], ["x", "e"], ["e", "j", "t", "u", "v"], ["fn", "mk", "e"], ["abs", "len", "mks"]]))
     miss = draw(st.integers(0, 5)) == 0
     depth = draw(st.integers(0, maxdepth))
     p = draw(st.sampled_from(names))
